@@ -169,6 +169,16 @@ func (state *engineState) GetCachedPackage(pkgPath string) *types.Package {
 	return pkg
 }
 
+func (state *engineState) cachedPackages() map[string]*types.Package {
+	state.pkgCacheMu.RLock()
+	defer state.pkgCacheMu.RUnlock()
+	packages := make(map[string]*types.Package, len(state.pkgCache))
+	for pkgPath, pkg := range state.pkgCache {
+		packages[pkgPath] = pkg
+	}
+	return packages
+}
+
 func (state *engineState) AddCachedPackage(pkgPath string, pkg *types.Package) {
 	state.pkgCacheMu.Lock()
 	state.addCachedPackage(pkgPath, pkg)
